@@ -96,12 +96,13 @@ def solver_flags(solver, workdir):
 
 # --------------------------------------------------------------------------- C text assembly
 
-def lowered_text(ast, roots, fnspecs, cuts=(), line_directives=True, drop_contracts=False):
+def lowered_text(ast, roots, fnspecs, cuts=(), line_directives=True, drop_contracts=False, simd_contracts=False):
     """lower the functions named by qualified name in `roots` plus callee closure.
     fnspecs: cname -> contract dict.  Returns (text, lowerer)."""
     lw = Lowerer(ast, line_directives=line_directives)
     lw.specs = fnspecs
     lw.no_contracts = drop_contracts
+    lw.simd_contracts = simd_contracts and not drop_contracts
     lw.cuts = set(cuts)
     for q in roots:
         fs = ast.find_functions(q)
@@ -219,7 +220,7 @@ def run_job(job, unit, workdir, log=print):
         ast = get_ast(workdir, unit['driver'], unit.get('defines', ()), unit.get('cflags', ()))
         specs = {k: expand_spec(v) for k, v in job.get('specs', {}).items()}
         mode = job.get('mode', 'dfcc')
-        text, lw = lowered_text(ast, job['roots'], specs, cuts=job.get('cuts', ()))
+        text, lw = lowered_text(ast, job['roots'], specs, cuts=job.get('cuts', ()), simd_contracts=bool(job.get('simd_contracts')))
         ghosts = job.get('ghosts', [])
         gtext = ''.join('%s %s;\n' % (t, g) for t, g in ghosts)
         # spec sanity: every spec'd function must exist in the lowered text
@@ -247,7 +248,10 @@ def run_job(job, unit, workdir, log=print):
             raw = job.get('specs', {})
             text, lw = lowered_text(ast, job['roots'], {k: {kk: vv for kk, vv in v.items() if kk == 'ghost_returns'} for k, v in raw.items()},
                                     cuts=job.get('cuts', ()), drop_contracts=True)
-            hg = RP.HarnessGen(lw, job['fn'], raw[job['fn']], ghosts, K=job.get('harness_K', 6), fixed=job.get('fixed'))
+            fixed = dict(job.get('fixed') or {})
+            if job.get('sweep'):
+                fixed[job['sweep'][0]] = 'QX_SWEEP'
+            hg = RP.HarnessGen(lw, job['fn'], raw[job['fn']], ghosts, K=job.get('harness_K', 6), fixed=fixed)
             htext = '#define QX_WITH_CANARY 1\n' + RP.CBMC_PRE + hg.build()
             for cn, inf in lw.fn_info.items():
                 if not inf['has_body']:
@@ -266,6 +270,8 @@ def run_job(job, unit, workdir, log=print):
             f.write(full)
         res.files['c'] = cfile
         res.assumes = sorted(set(re.findall(r'__CPROVER_assume\s*\(([^;]*)\);', full)))
+        if job.get('sweep'):
+            return run_sweep(job, res, jd, cfile, hname, workdir, t_start)
         # 1. goto-cc
         gb0 = os.path.join(jd, 'a.gb')
         cmd = ['goto-cc', '--function', hname, cfile, '-o', gb0] + ['-D' + d for d in job.get('defines', [])]
@@ -306,7 +312,7 @@ def run_job(job, unit, workdir, log=print):
         if mode == 'dfcc':
             gb1 = os.path.join(jd, 'b.gb')
             cmd = ['goto-instrument', '--no-malloc-may-fail', '--dfcc', hname, '--enforce-contract', job['fn']]
-            for r in job.get('replace', []):
+            for r in list(job.get('replace', [])) + (['qx_' + i for i in sorted(lw.intrinsics)] if job.get('simd_contracts') else []):
                 cmd += ['--replace-call-with-contract', r]
             cmd += ['--apply-loop-contracts'] if job.get('loop_contracts', True) else []
             cmd += [cur, gb1]
@@ -439,6 +445,60 @@ def run_job(job, unit, workdir, log=print):
         import traceback
         res.status = 'undecided'
         res.reason = 'internal error: %r %s' % (e, traceback.format_exc()[-800:])
+    res.seconds = time.time() - t_start
+    return res
+
+
+def run_sweep(job, res, jd, cfile, hname, workdir, t_start):
+    """bounded stand-in: the same harness for every value of one scalar parameter (symbolic contents), values run in parallel"""
+    flags, env = solver_flags(job.get('solver'), workdir)
+    checks = job.get('checks', DEFAULT_CHECKS)
+    param, values = job['sweep']
+    t0 = time.time()
+
+    def one(v):
+        gb = os.path.join(jd, 'sw_%s.gb' % v)
+        rc, out, err, dt = sh(['goto-cc', '--function', hname, cfile, '-o', gb, '-DQX_SWEEP=%s' % v], 120)
+        if rc != 0:
+            return v, None, 'goto-cc failed: ' + (err + out)[-500:]
+        cmd = ['cbmc', gb, '--json-ui', '--object-bits', str(job.get('objbits', 10)), '--no-malloc-may-fail', '--unwind', str(job.get('harness_unwind', 8)),
+               '--unwinding-assertions'] + checks + flags
+        rc, out, err, dt = sh(cmd, job.get('timeout', 300), env=env)
+        try:
+            os.remove(gb)
+        except OSError:
+            pass
+        results, status, msgs = parse_cbmc_json(out)
+        if results is None or status is None or rc not in (0, 10):
+            return v, None, 'cbmc error rc=%s %s' % (rc, (err or out)[-300:])
+        return v, results, ''
+    with ThreadPoolExecutor(max_workers=int(job.get('sweep_par', 8))) as ex:
+        outs = list(ex.map(one, values))
+    res.cmds.append('for v in %s..%s: goto-cc -DQX_SWEEP=v; cbmc --unwind %s --unwinding-assertions %s' % (values[0], values[-1], job.get('harness_unwind', 8), ' '.join(checks + flags)))
+    res.solver_seconds = time.time() - t0
+    try:
+        for v, results, err in outs:
+            if results is None:
+                raise Undecided('sweep value %s: %s' % (v, err))
+            can = [r for r in results if 'qx-canary' in r.get('description', '')]
+            if not can or can[0]['status'] != 'FAILURE':
+                raise Undecided('vacuity guard: harness canary did not fail for %s=%s' % (param, v))
+            for r in results:
+                if 'qx-canary' in r.get('description', ''):
+                    continue
+                sl = r.get('sourceLocation', {})
+                res.obligations.append(dict(name='%s=%s:%s' % (param, v, r['property']), status=r['status'], description=r.get('description', ''),
+                                            file=sl.get('file', ''), line=sl.get('line', ''), function=sl.get('function', '')))
+        res.canary = 'failed-as-required'
+        if not res.obligations:
+            raise Undecided('vacuity guard: zero obligations')
+        und = [o for o in res.obligations if o['status'] not in ('SUCCESS', 'FAILURE')]
+        if und and not any(o['status'] == 'FAILURE' for o in res.obligations):
+            raise Undecided('obligation status %s for %s' % (und[0]['status'], und[0]['name']))
+        res.status = 'fail' if any(o['status'] == 'FAILURE' for o in res.obligations) else 'pass'
+    except Undecided as e:
+        res.status = 'undecided'
+        res.reason = str(e)
     res.seconds = time.time() - t_start
     return res
 
